@@ -73,7 +73,9 @@ pub fn states() -> Vec<(&'static str, Vec<Vec<&'static str>>)> {
     ]
 }
 
-pub const PATHS: [&str; 5] = ["direct", "exec", "eval", "evalsha", "db1"];
+/// ("evalsha-upper": the digest spelled in upper case - refused as unknown or executed, but if executed then logged;
+/// a seeded change made the handler look the digest up case-insensitively while the logger kept the exact spelling)
+pub const PATHS: [&str; 6] = ["direct", "exec", "eval", "evalsha", "db1", "evalsha-upper"];
 
 struct Twin {
     l: Srv,
@@ -252,8 +254,9 @@ fn via(path: &str, cmd: &[Bytes], sha: &Option<Bytes>) -> Vec<Vec<Bytes>> {
             v.extend(cmd.iter().cloned());
             vec![v]
         }
-        "evalsha" => {
-            let mut v = vec![b("EVALSHA"), sha.clone().unwrap_or_default(), b("0")];
+        "evalsha" | "evalsha-upper" => {
+            let digest = sha.clone().unwrap_or_default();
+            let mut v = vec![b("EVALSHA"), if path == "evalsha-upper" { digest.to_ascii_uppercase() } else { digest }, b("0")];
             v.extend(cmd.iter().cloned());
             vec![v]
         }
@@ -279,7 +282,7 @@ fn run_steps(t: &mut Twin, steps: &[(String, Vec<Bytes>)]) -> Result<CaseOut, St
             t.call_l(&[b("SELECT"), b("0")])?;
             db = 0;
         }
-        if path == "evalsha" && t.sha.is_none() {
+        if path.starts_with("evalsha") && t.sha.is_none() {
             match t.call_l(&[b("SCRIPT"), b("LOAD"), b(FORWARD)])? {
                 R::Bulk(s) => t.sha = Some(s),
                 o => return Err(format!("SCRIPT LOAD -> {}", resp::show(&o))),
@@ -733,7 +736,7 @@ pub fn parent(tier: &str) -> i32 {
     report.coverage = json!({
         "states": histories.max(1), "transitions": frames.max(1), "traces_validated_against_impl": histories, "samples": samples, "exhaustive": true,
         "histories_with_effect": with_effect,
-        "explanation": format!("states = histories executed on the real appendonly server and re-executed from its log on the real twin; transitions = command frames decoded from the log. Complete product: {} key states x {} paths (direct, MULTI/EXEC, EVAL forwarding script, EVALSHA of it, the same in database 1) x {} catalogue entries (every write command of the dispatch table in effective, no-op and refused variants, commands with random outcomes, scripts with one / two / random / no writes), plus every ordered pair of catalogue entries from the empty dataset (thorough: from every key state) and 8 blocking scenarios (a blocked BLPOP/BRPOP served by RPUSH/LPUSH, by a push inside EXEC and from a script, two waiters, two keys, served at once, timed out), plus every sequence of 2 (thorough 3) turns of three connections parked in databases 0, 1 and 15 over a menu of 8 writes (direct, queued, scripted, random outcome). After every step: appended bytes decode into whole command arrays with nothing left over; a step that changed the dataset appended at least one and at most one command image; a command with a random outcome is not logged verbatim. At the end: FLUSHALL + SCRIPT FLUSH on the twin, the whole file re-executed over TCP in order, API-level dump of all 16 databases equal (values; TTL presence). fsync policy always (thorough: also no, everysec).", sts.len(), PATHS.len(), cat.len()),
+        "explanation": format!("states = histories executed on the real appendonly server and re-executed from its log on the real twin; transitions = command frames decoded from the log. Complete product: {} key states x {} paths (direct, MULTI/EXEC, EVAL forwarding script, EVALSHA of it, the same in database 1, EVALSHA with the digest in upper case) x {} catalogue entries (every write command of the dispatch table in effective, no-op and refused variants, commands with random outcomes, scripts with one / two / random / no writes), plus every ordered pair of catalogue entries from the empty dataset (thorough: from every key state) and 8 blocking scenarios (a blocked BLPOP/BRPOP served by RPUSH/LPUSH, by a push inside EXEC and from a script, two waiters, two keys, served at once, timed out), plus every sequence of 2 (thorough 3) turns of three connections parked in databases 0, 1 and 15 over a menu of 8 writes (direct, queued, scripted, random outcome). After every step: appended bytes decode into whole command arrays with nothing left over; a step that changed the dataset appended at least one and at most one command image; a command with a random outcome is not logged verbatim. At the end: FLUSHALL + SCRIPT FLUSH on the twin, the whole file re-executed over TCP in order, API-level dump of all 16 databases equal (values; TTL presence). fsync policy always (thorough: also no, everysec).", sts.len(), PATHS.len(), cat.len()),
     });
     report.assumptions = vec![
         "the clock does not move inside a history: expiry is not a command and the statement compares TTL presence only".into(),
